@@ -372,13 +372,17 @@ def replayGraph (committed : List (Nat × List WalRec)) (ckpt : Nat) (m : IdMap)
       let run := mt.freeze tx.1
       pure (m, if run.isEmpty then acc.2 else acc.2 ++ [run])) (m, [])
 
+/-- a segment named by the manifest is looked up by id in the file -/
+def findSeg (store : List Seg) (id : Nat) : Except OpenErr Seg :=
+  match store.find? (·.id == id) with
+  | some g => .ok g
+  | none => .error OpenErr.segment
+
 /-- GraphEngine::open -/
 def Engine.open (d : Disk) : Except OpenErr Engine := do
   let committed ← replayCommitted d.wal none []
   let st := scanRecovery committed
-  let segs ← st.segs.mapM (fun id => match d.segStore.find? (·.id == id) with
-    | some g => .ok g
-    | none => .error OpenErr.segment)
+  let segs ← st.segs.mapM (findSeg d.segStore)
   let maxSeg := segs.foldl (fun m g => max m g.id) 0
   let interner ← replayLabels committed
   let (idmap, runs) ← replayGraph committed st.ckptTxid (IdMap.load d.i2e)
